@@ -1,6 +1,8 @@
 package main
 
 import (
+	"sort"
+	"go/types"
 	"fmt"
 	"go/token"
 	"strings"
@@ -26,7 +28,7 @@ func checkC05(p *Prog, r *Report) {
 		return
 	}
 	root := roots[0]
-	r.Rule("R1", "every dereference / field access through a pointer that may be nil on the wire, in the synchronous inbound call tree, is guarded on the same access path")
+	r.Rule("R1", "every dereference / field access through a pointer that may be nil on the wire — or that is the result of a getter whose field is nil by construction (its constructor is called with nil) — in the synchronous inbound call tree, is guarded on the same access path")
 	r.Rule("R2", "every constant index into a wire-derived list is guarded by a length test")
 	r.Rule("R3", "no explicit panic and no unchecked type assertion on wire data is reachable in the inbound call tree (exemptions only where an exhaustive table rule proves the case impossible)")
 	r.Rule("R4", "reflect preconditions: every fct tag is non-empty (so CmdData.Function / FilterData.Function are non-nil after a successful accessor); the selector match calls Elem() on an item field only if it is a non-nil pointer; every item field is of a nilable kind")
@@ -74,6 +76,20 @@ func checkC05(p *Prog, r *Report) {
 	r.Stat("guarded sites", w.Guarded)
 	r.Floor("R1", "functions in the synchronous inbound call tree", len(w.reach), 100)
 	r.Floor("R1", "panic-prone sites on wire data", w.Total, 20)
+	nGetters := 0
+	var nbc []string
+	for t, fs := range w.sn.nilByType {
+		for f, by := range fs {
+			nGetters++
+			nbc = append(nbc, fmt.Sprintf("nil by construction: %s.%s (built by %s)", t.Obj().Name(), f.S.Underlying().(*types.Struct).Field(f.I).Name(), by))
+		}
+	}
+	sort.Strings(nbc)
+	for _, s := range nbc {
+		r.Info("%s", s)
+	}
+	r.Stat("getter fields nil by construction", nGetters)
+	r.Floor("R1", "getter fields that are nil by construction", nGetters, 1)
 	nf := 0
 	tf := 0
 	for _, k := range sortedKeys(w.taintedField) {
@@ -106,7 +122,11 @@ func checkC05(p *Prog, r *Report) {
 		if what == "" {
 			what = f.Kind + " on"
 		}
-		r.Fail(rule, k, p.InstrPos(f.Ins), fmt.Sprintf("unguarded %s %s: a datagram omitting this element crashes the reader goroutine", what, f.Path))
+		why := "a datagram omitting this element crashes the reader goroutine"
+		if strings.HasSuffix(f.Path, "()") {
+			why = "the getter returns nil until the value was learned from the peer; a message handled before that crashes the reader goroutine"
+		}
+		r.Fail(rule, k, p.InstrPos(f.Ins), fmt.Sprintf("unguarded %s %s: %s", what, f.Path, why))
 	}
 	if nf == 0 {
 		r.Pass("R1", "inbound-tree", "", fmt.Sprintf("%d panic-prone sites on wire data, all guarded", w.Total))
